@@ -49,7 +49,7 @@ type Cfg struct {
 	MaxReq            int    // signature requests along a path
 	MaxTransitionSec  int64  // bandtss MaxTransitionDuration
 	FeePerSigner      int64
-	Events            []string // kinds: propose:min propose:max propose:past propose:late force:min force:max probe dkg dkgmsg dkgfast spoil stale sig sigany req reqgov inde act block jump jumpexec expire
+	Events            []string // kinds: propose:min propose:max propose:frac propose:past propose:late force:min force:max force:frac probe dkg dkgmsg dkgfast spoil stale sig sigany req reqgov inde act block jump jumpexec jumpfrac expire
 	Depth             int
 }
 
@@ -467,7 +467,7 @@ func (s *spec) Enabled(w *engine.World, ctx sdk.Context, mm engine.Model, depth 
 			}
 		}
 	} else if m.Proposals < s.cfg.MaxProposals {
-		for _, k := range []string{"propose:min", "propose:max", "propose:past", "propose:late"} {
+		for _, k := range []string{"propose:min", "propose:max", "propose:frac", "propose:past", "propose:late"} {
 			if s.has(k) {
 				out = append(out, k)
 			}
@@ -477,7 +477,7 @@ func (s *spec) Enabled(w *engine.World, ctx sdk.Context, mm engine.Model, depth 
 			if gid == m.Cur {
 				continue
 			}
-			for _, k := range []string{"force:min", "force:max"} {
+			for _, k := range []string{"force:min", "force:max", "force:frac"} {
 				if s.has(k) {
 					out = append(out, fmt.Sprintf("%s:%d", k, gid))
 				}
@@ -560,7 +560,10 @@ func (s *spec) Enabled(w *engine.World, ctx sdk.Context, mm engine.Model, depth 
 		if s.has("jump") && exec.Add(-time.Second).After(now) {
 			out = append(out, "block:exec-1")
 		}
-		if (s.has("jump") || s.has("jumpexec")) && exec.After(now) {
+		if s.has("jumpfrac") && exec.Add(-500*time.Millisecond).After(now) {
+			out = append(out, "block:exec-half") // lands half a second before the exec time
+		}
+		if (s.has("jump") || s.has("jumpexec") || s.has("jumpfrac")) && exec.After(now) {
 			out = append(out, "block:exec")
 		}
 		if s.has("jump") && exec.Add(blockTime).After(now) {
@@ -612,6 +615,9 @@ func (s *spec) execTime(now time.Time, kind string) time.Time {
 		return now.Add(minDur)
 	case "max":
 		return now.Add(maxDur)
+	case "frac":
+		// an exec time with a sub-second part (block times of the base are whole seconds)
+		return now.Add(maxDur - 250*time.Millisecond)
 	case "past":
 		return now.Add(-time.Second)
 	case "late":
@@ -809,6 +815,8 @@ func (s *spec) Step(w *engine.World, ctx sdk.Context, mm engine.Model, ev string
 				panic("harness: jump without transition")
 			}
 			switch parts[1] {
+			case "exec-half":
+				dt = time.Unix(0, m.Tr.Exec).Add(-500 * time.Millisecond).Sub(now)
 			case "exec-1":
 				dt = time.Unix(0, m.Tr.Exec).Add(-time.Second).Sub(now)
 			case "exec":
